@@ -83,11 +83,14 @@ def handle (args : List String) : String :=
     match shipped removePen, (if as == "-" then some [] else (as.splitOn ";").mapM parseAtom),
           (if gs == "-" then some [] else (gs.splitOn ";").mapM parseGroup) with
     | some p, some atoms, some groups =>
-      let atab := (atoms.map (·.t)).toArray
-      let gr := (groups.map (·.g)).toArray
-      let ares := (atoms.map (·.res)).toArray
-      let gres := (groups.map fun g => ares.getD g.g.atom (0, "")).toArray
-      let env := envOf (atoms.map (·.pos)).toArray (groups.map (·.pos)).toArray ares gres
+      let aarr := atoms.toArray
+      let garr := groups.toArray
+      let z : Angle.P3 Float := ⟨0, 0, 0⟩
+      let atab : Tab AtomT := ⟨aarr.size, fun i => ((aarr[i]?).map (·.t)).getD default⟩
+      let gr : Tab (GroupT Float) := ⟨garr.size, fun i => ((garr[i]?).map (·.g)).getD GroupT.dflt⟩
+      let ares : Nat → ResKey := fun i => ((aarr[i]?).map (·.res)).getD (0, "")
+      let env := envOf (fun i => ((aarr[i]?).map (·.pos)).getD z) (fun i => ((garr[i]?).map (·.pos)).getD z) ares
+        (fun g => ares (gr.get g).atom)
       let out := score p env atab gr
       if out.isEmpty then "-" else ";".intercalate (out.map showOut)
     | _, _, _ => "bad-op"
